@@ -114,7 +114,25 @@ def apply_op(v, op):
         return v
     if k == 'read':
         # every kind of query, no mutation: must be transparent for whatever follows (lazily computed flags, remembered
-        # answers)
+        # answers).  Order: a few queries, then calls that are mutators by name but must change nothing here (they may fill,
+        # consult or drop remembered answers too), then every kind of query - so that whatever queries leave behind is in
+        # place when the next step runs.
+        str(v)
+        v.is_optimizable()
+        if len(v):
+            v.settings_at(0)
+            v.find_settings(v.ansi_settings_at(0) or AnsiSetting('1'))
+        n_ = len(v)
+        v.remove_formatting(AnsiSetting('95'), 0, n_)
+        v.apply_formatting([], 0, n_)
+        v.format_matching('\x00\x00q', AnsiSetting('95'))
+        v.unformat_matching('\x00\x00q', AnsiSetting('95'))
+        v.replace('\x00\x00q', 'x', inplace=True)
+        v.clip(inplace=True)
+        v.strip('\x00', inplace=True)
+        v.removeprefix('\x00\x00q', inplace=True)
+        v.ljust(n_, inplace=True)
+        v.center(n_, inplace=True)
         str(v)
         v.to_str(optimize=False)
         format(v, '')
@@ -124,6 +142,8 @@ def apply_op(v, op):
         if len(v):
             v.settings_at(0)
             v.ansi_settings_at(len(v) - 1)
+            v.find_settings(v.ansi_settings_at(0) or AnsiSetting('1'))
+            v.find_settings(v.ansi_settings_at(len(v) - 1) or AnsiSetting('1'), reverse=True)
         v.find_settings(AnsiSetting('1'))
         v.find_settings(AnsiSetting('31'), reverse=True)
         v == v.copy()
@@ -141,18 +161,6 @@ def apply_op(v, op):
         v.isalpha()
         v.lower()
         v.strip()
-        # calls that are mutators by name but must change nothing here: they may fill or consult remembered answers too
-        n_ = len(v)
-        v.remove_formatting(AnsiSetting('95'), 0, n_)
-        v.apply_formatting([], 0, n_)
-        v.format_matching('\x00\x00q', AnsiSetting('95'))
-        v.unformat_matching('\x00\x00q', AnsiSetting('95'))
-        v.replace('\x00\x00q', 'x', inplace=True)
-        v.clip(inplace=True)
-        v.strip('\x00', inplace=True)
-        v.removeprefix('\x00\x00q', inplace=True)
-        v.ljust(n_, inplace=True)
-        v.center(n_, inplace=True)
         return v
     if k == 'reparse':
         return AnsiString(str(v))
@@ -205,6 +213,10 @@ def show(history):
     return ' . '.join(repr(x) for x in history)
 
 
+import re as _re
+_FUNC_DIRECTIVE = _re.compile(r'^(|fg_|bg_)(rgb|color256)\(([0-9, ]+)\)$', _re.I)
+
+
 def codes_of_spec(spec):
     """The setting texts a settings spec of the operation language stands for (what ansi_settings_at reports)."""
     from .env import AnsiFormat
@@ -221,6 +233,13 @@ def codes_of_spec(spec):
     if spec.startswith('name:'):
         out = []
         for n in spec[5:].split(';'):
+            fm = _FUNC_DIRECTIVE.match(n.strip())
+            if fm:
+                # rgb(r,g,b) / fg_rgb / bg_rgb / color256(n) / fg_color256 / bg_color256 (documented directive strings)
+                lead = {'': '38', 'fg_': '38', 'bg_': '48'}[fm.group(1).lower()]
+                nums = [str(int(x)) for x in fm.group(3).split(',')]
+                out.append(';'.join([lead, '2' if fm.group(2).lower() == 'rgb' else '5'] + nums))
+                continue
             out.extend(str(x) for x in AnsiFormat[n.upper().replace(' ', '_').replace('-', '_')].ansi_settings)
         return out
     return [spec]
